@@ -331,3 +331,36 @@ def sub_calls(body):
             out.append((n, n.func.value, n.args[0], n.args[1], n.args[2] if len(n.args) > 2 else kw.get("count")))
     out.sort(key=lambda t: (t[0].lineno, t[0].col_offset))
     return out
+
+
+def filtered_copies(body):
+    """Key/value copies in normal form: [(node, target text, iterable expr, set of filter atoms, key text, value text, key var, value var)] for
+
+        for k, v in IT: if C: T[k] = v          T.update((k, v) for k, v in IT if C)          T.update({k: v for k, v in IT if C})"""
+    from .model import _flatten_atom
+    out = []
+    for lp in [s for s in walk_body(body) if isinstance(s, ast.For)]:
+        if not (isinstance(lp.target, ast.Tuple) and len(lp.target.elts) == 2):
+            continue
+        kv = [U(e) for e in lp.target.elts]
+        st = [a for a in walk_body(lp.body) if isinstance(a, ast.Assign) and isinstance(a.targets[0], ast.Subscript)]
+        if len(st) == 1 and not loop_exits(lp) and len([x for x in walk_body(lp.body) if isinstance(x, (ast.Assign, ast.AugAssign, ast.Expr))]) == 1:
+            a = st[0]
+            out.append((lp, U(a.targets[0].value), lp.iter, set(guard_texts(a, stop=lp)), U(a.targets[0].slice), U(a.value), kv[0], kv[1]))
+    for c in [x for x in walk_body(body) if isinstance(x, ast.Call) and call_attr(x) == "update" and len(x.args) == 1 and not x.keywords]:
+        comp = c.args[0]
+        if isinstance(comp, (ast.GeneratorExp, ast.ListComp)) and isinstance(comp.elt, ast.Tuple) and len(comp.elt.elts) == 2:
+            key, val = U(comp.elt.elts[0]), U(comp.elt.elts[1])
+        elif isinstance(comp, ast.DictComp):
+            key, val = U(comp.key), U(comp.value)
+        else:
+            continue
+        if len(comp.generators) != 1 or not (isinstance(comp.generators[0].target, ast.Tuple) and len(comp.generators[0].target.elts) == 2):
+            continue
+        g = comp.generators[0]
+        atoms = []
+        for t in g.ifs:
+            _flatten_atom(t, True, atoms)
+        kv = [U(e) for e in g.target.elts]
+        out.append((c, U(c.func.value), g.iter, set((U(e), p) for e, p in atoms) | set(guard_texts(c)), key, val, kv[0], kv[1]))
+    return out
